@@ -148,6 +148,42 @@ pub mod stdcap {
         ensures r@.len() == 0 { Vec::with_capacity(n) }
     }
 }
+pub mod comb {
+    use vstd::prelude::*;
+    verus! {
+    // Option / Result seen as "a value or not": what `.map(F)`, `.and_then(F)`, `.map_or(D, F)` .. do with their receiver
+    pub enum V<T, N> { Yes(T), No(N) }
+    pub struct OptW;
+    pub struct ResW<E> { pub e: core::marker::PhantomData<E> }
+    pub trait View: Sized { type T; type N; type W; fn view__(self) -> (V<Self::T, Self::N>, Self::W); }
+    impl<T> View for Option<T> {
+        type T = T; type N = (); type W = OptW;
+        fn view__(self) -> (r: (V<T, ()>, OptW))
+            ensures r.0 == (match self { Some(x) => V::<T, ()>::Yes(x), None => V::<T, ()>::No(()) })
+        { match self { Some(x) => (V::Yes(x), OptW), None => (V::No(()), OptW) } }
+    }
+    impl<T, E> View for Result<T, E> {
+        type T = T; type N = E; type W = ResW<E>;
+        fn view__(self) -> (r: (V<T, E>, ResW<E>))
+            ensures r.0 == (match self { Ok(x) => V::<T, E>::Yes(x), Err(e) => V::<T, E>::No(e) })
+        { match self { Ok(x) => (V::Yes(x), ResW { e: core::marker::PhantomData }), Err(e) => (V::No(e), ResW { e: core::marker::PhantomData }) } }
+    }
+    pub trait Wit<U>: Sized { type N; type Out; fn yes__(self, u: U) -> Self::Out; fn no__(self, n: Self::N) -> Self::Out; }
+    impl<U> Wit<U> for OptW {
+        type N = (); type Out = Option<U>;
+        fn yes__(self, u: U) -> (r: Option<U>) ensures r == Some(u) { Some(u) }
+        fn no__(self, n: ()) -> (r: Option<U>) ensures r == None::<U> { None }
+    }
+    impl<U, E> Wit<U> for ResW<E> {
+        type N = E; type Out = Result<U, E>;
+        fn yes__(self, u: U) -> (r: Result<U, E>) ensures r == Ok::<U, E>(u) { Ok(u) }
+        fn no__(self, n: E) -> (r: Result<U, E>) ensures r == Err::<U, E>(n) { Err(n) }
+    }
+    pub trait FromNo<N>: Sized { fn from_no__(n: N) -> Self; }
+    impl<U> FromNo<()> for Option<U> { fn from_no__(n: ()) -> (r: Option<U>) ensures r == None::<U> { None } }
+    impl<U, E> FromNo<E> for Result<U, E> { fn from_no__(n: E) -> (r: Result<U, E>) ensures r == Err::<U, E>(n) { Err(n) } }
+    }
+}
 pub mod vecext {
     use vstd::prelude::*;
     verus! {
